@@ -38,6 +38,15 @@ ASSUMPTIONS = [
     'container size bounded (<= 4 members) to keep the state space finite',
     'reference DER encoder mc/model/x690.py; CPython 3.12, PYTHONHASHSEED=0',
 ]
+# name -> f(current length) -> (slice, replacement values)
+SLICE_OPS = {
+    'setslice_grow': lambda L: (slice(0, 1), [2, 1]),
+    'setslice_insert': lambda L: (slice(1, 1), [2]),
+    'setslice_tail': lambda L: (slice(L, None), [1]),
+    'setslice_shrink': lambda L: (slice(0, 2), [1]),
+    'setslice_step': lambda L: (slice(None, None, 2), [2] * len(range(0, L, 2))),
+    'setslice_del': lambda L: (slice(0, 1), []),
+}
 UNSET = '<unset>'
 LOOKUP_ERRORS = (IndexError, KeyError, ValueError)
 
@@ -110,7 +119,7 @@ class Subject(object):
         return label.startswith('x:')
 
     def canon(self, obj, model):
-        return (model, B.shape(obj))
+        return (model, B.shape(obj, keep_order=True))
 
 
 def results_equal(a, b):
@@ -157,6 +166,18 @@ class OfSubject(Subject):
             ops += ['m:setitem(-1,2)', 'm:setpos(0,2)']
         if L >= 2:
             ops += ['m:setslice(0,2;2,1)']
+        if m is not None:
+            # slice assignment with Python list semantics: growing, shrinking, inserting, appending, extended slices
+            if L >= 1 and L + 1 <= self.MAXLEN:
+                ops += ['m:setslice_grow()', 'm:setslice_insert()']
+            if L + 1 <= self.MAXLEN:
+                ops += ['m:setslice_tail()']
+            if L >= 2:
+                ops += ['m:setslice_shrink()']
+            if L >= 3:
+                ops += ['m:setslice_step()']
+            if L >= 1:
+                ops += ['m:setslice_del()']
         ops += ['r:len', 'r:iter', 'r:in(1)', 'r:in(2)', 'r:count(1)', 'r:isValue', 'r:der', 'r:pretty', 'r:str', 'r:repr',
                 'r:eq', 'r:getpos_noinst(0)', 'r:bool', 'r:cer', 'r:ber_indef']
         if L:
@@ -164,6 +185,9 @@ class OfSubject(Subject):
         ops += ['x:getitem(%d)' % (-L - 1), 'x:setitem(%d,1)' % (-L - 1)]
         if self.typed:
             ops += ['x:append_wrongtype()']      # a rejected assignment must change nothing (also on a schema object)
+            if L >= 2:
+                # equal-length slice assignment whose LAST member is unacceptable: all or nothing
+                ops += ['x:setslice_badlast()', 'x:setslice_step_badlast()']
         return ops
 
     def expect(self, label, m):
@@ -201,7 +225,7 @@ class OfSubject(Subject):
                 return tuple(sorted(lst, key=lambda x: x % 2)), ('ok', ANY)
             # every member ties under the key: a stable sort keeps the order, also with reverse=True
             return tuple(sorted(lst, key=lambda x: 0, reverse=True)), ('ok', ANY)
-        if name == 'append_wrongtype':
+        if name in ('append_wrongtype', 'setslice_badlast', 'setslice_step_badlast'):
             return m, ('err',)
         if name == 'clone':
             return m, ('ok', ANY)
@@ -213,6 +237,10 @@ class OfSubject(Subject):
             return tuple(lst), ('ok', ANY)
         if name == 'setslice':
             lst[0:2] = [2, 1]
+            return tuple(lst), ('ok', ANY)
+        if name in SLICE_OPS:
+            sl, vals = SLICE_OPS[name](L)
+            lst[sl] = vals
             return tuple(lst), ('ok', ANY)
         # readers
         if name == 'len':
@@ -276,8 +304,16 @@ class OfSubject(Subject):
             'sortkeyrev': lambda: obj.sort(key=lambda x: 0, reverse=True),
             'sortkey': lambda: obj.sort(key=lambda x: int(x) % 2),
             'append_wrongtype': lambda: obj.append(univ.OctetString(b'zz')),
+            'setslice_badlast': lambda: operator.setitem(obj, slice(0, 2), [V(2), univ.OctetString(b'zz')]),
+            'setslice_step_badlast': lambda: operator.setitem(obj, slice(None, None, max(1, len(obj) - 1)), [V(2), univ.OctetString(b'zz')]),
             'setitem': lambda: operator.setitem(obj, args[0], V(args[1])),
             'setslice': lambda: operator.setitem(obj, slice(0, 2), [V(2), V(1)]),
+            'setslice_grow': lambda: operator.setitem(obj, SLICE_OPS['setslice_grow'](len(obj))[0], [V(x) for x in SLICE_OPS['setslice_grow'](len(obj))[1]]),
+            'setslice_insert': lambda: operator.setitem(obj, SLICE_OPS['setslice_insert'](len(obj))[0], [V(x) for x in SLICE_OPS['setslice_insert'](len(obj))[1]]),
+            'setslice_tail': lambda: operator.setitem(obj, SLICE_OPS['setslice_tail'](len(obj))[0], [V(x) for x in SLICE_OPS['setslice_tail'](len(obj))[1]]),
+            'setslice_shrink': lambda: operator.setitem(obj, SLICE_OPS['setslice_shrink'](len(obj))[0], [V(x) for x in SLICE_OPS['setslice_shrink'](len(obj))[1]]),
+            'setslice_step': lambda: operator.setitem(obj, SLICE_OPS['setslice_step'](len(obj))[0], [V(x) for x in SLICE_OPS['setslice_step'](len(obj))[1]]),
+            'setslice_del': lambda: operator.setitem(obj, SLICE_OPS['setslice_del'](len(obj))[0], [V(x) for x in SLICE_OPS['setslice_del'](len(obj))[1]]),
             'len': lambda: len(obj),
             'iter': lambda: list(obj),
             'in': lambda: args[0] in obj,
@@ -679,7 +715,9 @@ class ChoiceSubject(Subject):
 
     def enabled(self, m):
         ops = ['m:set_name(x,1)', 'm:setitem(x,2)', 'm:set_name(y,0)', 'm:set_pos(1,1)', 'm:set_type(x,2)', 'm:set_n(1)',
-               'm:set_n(2)', 'm:clear()', 'm:reset()', 'm:clone()']
+               'm:set_n(2)', 'm:clear()', 'm:reset()', 'm:clone()',
+               # the same alternative addressed from the end, Python style (the implementation accepts it)
+               'm:set_posneg(2,0)']
         ops += ['r:len', 'r:iter', 'r:keys', 'r:values', 'r:items', 'r:in(x)', 'r:in(y)', 'r:isValue', 'r:der', 'r:getName',
                 'r:getComponent', 'r:pretty', 'r:str', 'r:repr', 'r:bool', 'r:eq']
         for i, a in enumerate(self.ALTS):
@@ -698,7 +736,7 @@ class ChoiceSubject(Subject):
             return (a, k if a == 'x' else self.YV[k]), ('ok', ANY)
         if name == 'setitem':
             return ('x', args[1]), ('ok', ANY)
-        if name == 'set_pos':
+        if name in ('set_pos', 'set_posneg'):
             return ('y', self.YV[args[1]]), ('ok', ANY)
         if name == 'set_type':
             return ('x', args[1]), ('ok', ANY)
@@ -748,6 +786,7 @@ class ChoiceSubject(Subject):
             'set_name': lambda: (obj.setComponentByName(args[0], (args[1] if args[0] != 'y' else self.YV[args[1]])), None)[1],
             'setitem': lambda: operator.setitem(obj, args[0], args[1]),
             'set_pos': lambda: (obj.setComponentByPosition(args[0], self.YV[args[1]] if args[0] == 1 else args[1]), None)[1],
+            'set_posneg': lambda: (obj.setComponentByPosition(-args[0], self.YV[args[1]]), None)[1],
             'set_type': lambda: (obj.setComponentByType(univ.Integer.tagSet, args[1]), None)[1],
             'set_n': lambda: (obj.setComponentByName('n', self.inner(args[0])), None)[1],
             'clear': lambda: (obj.clear(), None)[1],
